@@ -685,6 +685,48 @@ def run(ctx):
                "whatever the caches held before" % ", ".join(x[len("babylon::SerializeTraits<"):-1][:60] for x in need[:3]),
                site="%s@size-cached-flag" % fn.record[:140])
     ctx.floor("C11.R9d", n9d, 25, "trait writers with a declared SERIALIZED_SIZE_CACHED")
+    # R10 TRIVIAL means what the container shortcuts take it to mean: the encoded size does not depend on the value
+    helper = recs.get("babylon::SerializationHelper") or {}
+    TRIV = helper.get("consts", {}).get("SERIALIZED_SIZE_COMPLEXITY_TRIVIAL")
+    if TRIV is None:
+        ctx.broken("C11.R10: SerializationHelper::SERIALIZED_SIZE_COMPLEXITY_TRIVIAL not found")
+    n10 = 0
+    TREC = re.compile(r"^(babylon::BasicSerializeTraits<)?babylon::SerializeTraits<.*>$")
+    for fn in fb.find(pred=lambda f: f.name == "calculate_serialized_size" and f.has_cfg() and not f.lambda_ and TREC.match(f.record or "")):
+        own_t = trait_of(fn.record + "::x")
+        if own_t is None or const_of(own_t, "SERIALIZED_SIZE_COMPLEXITY") != TRIV:
+            continue
+        n10 += 1
+        # the helper and the member functions the serialization macro generates are part of the size function; other traits are not
+        ig = IG(fn, inline=lambda fr, ev, callee: not callee.lambda_ and not TREC.match(callee.record or "") and
+                (callee.record == "babylon::SerializationHelper" or "serialize" in callee.name), max_depth=5)
+        live = ig.live_nodes()
+        nested = set()
+        for n in ig.ev_nodes():
+            if n.id in live and n.ev["e"] == "call" and TRAIT_CALL.match(n.ev.get("callee", "") or ""):
+                t_ = trait_of(n.ev.get("callee"))
+                if t_ and t_ != own_t:
+                    nested.add(t_)
+        weaker = sorted(t_ for t_ in nested if const_of(t_, "SERIALIZED_SIZE_COMPLEXITY") not in (None, TRIV))
+        # a branch of the size function itself that tests the value
+        dep = None
+        for nd in ig.nodes:
+            for m, lab in nd.succ:
+                if lab is None or lab.cond is None or lab.frame.id != 0:
+                    continue
+                c_ = ig.resolve(lab.cond, lab.frame)
+                if const_val(c_) is not None:
+                    continue
+                if L.deep_find(ig, c_, lambda sd: sd.get("k") == "p" and sd.get("i") == 0, through_args=True) is not None:
+                    dep = nd
+        short_t = own_t[len("babylon::SerializeTraits<"):-1][:70]
+        ctx.ob("C11.R10", "SerializeTraits<%s>" % short_t, not weaker and dep is None, fn.loc,
+               "declares SERIALIZED_SIZE_COMPLEXITY_TRIVIAL (size independent of the value; vector / array / ReusableVector then take "
+               "N * size(first element)) but %s" % (
+                   ("its size function calls %s, which is not TRIVIAL" % ", ".join(x[len("babylon::SerializeTraits<"):-1][:50] for x in weaker[:3]))
+                   if weaker else "its size function branches on the value (line %s)" % (dep.line if dep is not None else "?")),
+               site="%s@trivial-size" % own_t[:150])
+    ctx.floor("C11.R10", n10, 3, "traits declaring a value-independent size")
     for fn in fb.find(pred=lambda f: f.record == "babylon::Serialization" and f.name in ("parse_from_coded_stream",) and f.has_cfg()):
         n9 += 1
         ig = IG(fn, inline=nin)
@@ -795,7 +837,9 @@ ANCHORS = {
     'deserialize': ['^babylon::BasicSerializeTraits(<|$)', '^babylon::ReusableVector(<|$)', '^babylon::SerializationHelper(<|$)', '^babylon::SerializeTraits(<|$)'],
     'deserialize_field': ['^babylon::SerializationHelper(<|$)'],
     'deserialize_packed_field': ['^babylon::SerializationHelper(<|$)'],
+    'make_tag_size': ['^babylon::SerializationHelper(<|$)'],
     'serialize': ['^babylon::BasicSerializeTraits(<|$)', '^babylon::ReusableVector(<|$)', '^babylon::SerializationHelper(<|$)', '^babylon::SerializeTraits(<|$)'],
     'serialize_packed_field': ['^babylon::SerializationHelper(<|$)'],
+    'serialized_size_cached': ['^babylon::BasicSerializeTraits(<|$)', '^babylon::SerializationHelper(<|$)', '^babylon::SerializeTraits(<|$)'],
     'varint_size': ['^babylon::SerializationHelper(<|$)'],
 }
